@@ -561,6 +561,8 @@ type Opts struct {
 	MaxData       int  // largest stream body (default 70000)
 	ForbidHeaders bool // C20: no line-initial "N G obj" inside strings and stream data
 	SmallObjects  bool // keep object trees small
+	MaxDelta      uint32 // if > 0: largest distance of an explicit object number (each skipped number costs a 20-byte xref line)
+	AllowSparse   bool // allow explicit object numbers 70000 above the allocated ones (files of > 1 MB with xref tables)
 }
 
 var bodyWords = [][]byte{[]byte("endstream"), []byte("\nendstream"), []byte("\r\nendstream\n"), []byte("endobj"),
@@ -731,7 +733,14 @@ func Gen(o Opts) *rapid.Generator[Program] {
 				a.Pre = rapid.IntRange(0, 7).Draw(t, "pre")
 			case 1:
 				a.RefKind = "explicit"
-				a.Delta = rapid.SampledFrom([]uint32{1, 2, 7, 100, 3000, 1, 2, 7, 100, 3000, 70000}).Draw(t, "delta")
+				deltas := []uint32{1, 2, 7, 100, 3000}
+				if o.AllowSparse {
+					deltas = []uint32{1, 2, 7, 100, 3000, 1, 2, 7, 100, 3000, 70000}
+				}
+				a.Delta = rapid.SampledFrom(deltas).Draw(t, "delta")
+				if o.MaxDelta > 0 && a.Delta > o.MaxDelta {
+					a.Delta = o.MaxDelta
+				}
 				if a.Delta > 8000 && v >= pdf.V1_5 && !p.HumanReadable && vt.FindingOpen(FindingSparseXRef) {
 					// the file would get a cross-reference stream with more
 					// entries than the reader's budget for its size allows
